@@ -62,21 +62,16 @@ fn assert_trace(world: &World, expect: &[u8], what: &'static str) {
 // ---------------------------------------------------------------------------------------------------------------
 // K.callbacks.run_initialized: run_initialized_system(world, sys, input, cleanup) invokes `cleanup` exactly once, AFTER the
 // system body and BEFORE the first command deferred by the body is applied - for exclusive and non-exclusive systems - and
-// returns the body's output (C04).  Shape: loop-free; exclusivity symbolic; 0..=2 deferred commands.
+// returns the body's output (C04).  Shape: exclusive / non-exclusive x {0,2} deferred commands (one harness each).
 // ---------------------------------------------------------------------------------------------------------------
-//# id=K.callbacks.run_initialized props=C04 strength=complete shape="loop-free; exclusive?/number of deferred commands (0..=2) symbolic" tier=quick fns=run_initialized_system
-#[kani::proof] #[kani::unwind(6)]
-fn k_callbacks_run_initialized() {
+fn run_initialized_contract<const EXCLUSIVE: bool, const QUEUED: u8>() {
     let mut world = World::new();
     world.init_resource::<Trace>();
-    let exclusive: bool = kani::any();
-    let queued: u8 = kani::any();
-    kani::assume(queued <= 2);
-    let mut sys = Probe { exclusive, queued, runs: 0, inits: 0, pending: 0 };
+    let mut sys = Probe { exclusive: EXCLUSIVE, queued: QUEUED, runs: 0, inits: 0, pending: 0 };
     let out = run_initialized_system(&mut world, &mut sys, (), cleanup_fn);
     assert!(out == 1, "run_initialized_system: returns the output of the system body (run once)");
     const WHAT: &str = "run_initialized_system: cleanup runs exactly once, after the body and before the body's deferred commands";
-    match queued {
+    match QUEUED {
         0 => assert_trace(&world, &[BODY, CLEANUP], WHAT),
         1 => assert_trace(&world, &[BODY, CLEANUP, DEFERRED], WHAT),
         _ => assert_trace(&world, &[BODY, CLEANUP, DEFERRED, DEFERRED], WHAT),
@@ -84,6 +79,14 @@ fn k_callbacks_run_initialized() {
     assert!(sys.runs == 1 && sys.inits == 0, "run_initialized_system: runs the body once and does not re-initialize");
     core::mem::forget(world);
 }
+//# id=K.callbacks.run_initialized.plain.q0 props=C04 strength=complete shape="non-exclusive system, 0 deferred commands" tier=quick fns=run_initialized_system
+#[kani::proof] #[kani::unwind(6)] fn k_callbacks_run_initialized_plain_q0() { run_initialized_contract::<false, 0>(); }
+//# id=K.callbacks.run_initialized.plain.q2 props=C04 strength=complete shape="non-exclusive system, 2 deferred commands" tier=quick fns=run_initialized_system
+#[kani::proof] #[kani::unwind(6)] fn k_callbacks_run_initialized_plain_q2() { run_initialized_contract::<false, 2>(); }
+//# id=K.callbacks.run_initialized.exclusive.q0 props=C04 strength=complete shape="exclusive system, 0 deferred commands" tier=quick fns=run_initialized_system
+#[kani::proof] #[kani::unwind(6)] fn k_callbacks_run_initialized_exclusive_q0() { run_initialized_contract::<true, 0>(); }
+//# id=K.callbacks.run_initialized.exclusive.q2 props=C04 strength=complete shape="exclusive system, 2 deferred commands" tier=quick fns=run_initialized_system
+#[kani::proof] #[kani::unwind(6)] fn k_callbacks_run_initialized_exclusive_q2() { run_initialized_contract::<true, 2>(); }
 
 // ---------------------------------------------------------------------------------------------------------------
 // K.callbacks.raw / K.callbacks.boxed: RawCallbackSystem / CallbackSystem::run_with_cleanup over 1..=3 consecutive runs (C13, C04):
@@ -91,10 +94,10 @@ fn k_callbacks_run_initialized() {
 // is stored back as `Initialized` after every run, cleanup sits between body and deferred commands on every run;
 // CallbackSystem::Empty still runs the cleanup (and nothing else).
 // ---------------------------------------------------------------------------------------------------------------
-fn raw_contract<const RUNS: usize>() {
+fn raw_contract<const RUNS: usize, const EXCL: bool>() {
     let mut world = World::new();
     world.init_resource::<Trace>();
-    let exclusive: bool = kani::any();
+    let exclusive: bool = EXCL;
     let mut cb: RawCallbackSystem<(), u32, Probe> = RawCallbackSystem::New(Probe { exclusive, queued: 1, runs: 0, inits: 0, pending: 0 });
     assert!(cb.is_new());
     let mut r = 0;
@@ -110,15 +113,15 @@ fn raw_contract<const RUNS: usize>() {
     match &cb { RawCallbackSystem::Initialized(s) => assert!(s.inits == 1 && s.runs == RUNS as u32, "RawCallbackSystem: initialized exactly once over all runs"), _ => assert!(false, "RawCallbackSystem: stored back as Initialized") }
     core::mem::forget(world);
 }
-//# id=K.callbacks.raw.runs1 props=C13,C04 strength=complete shape="1 run; exclusivity symbolic" tier=quick fns=RawCallbackSystem::run_with_cleanup
-#[kani::proof] #[kani::unwind(6)] fn k_callbacks_raw_runs1() { raw_contract::<1>(); }
-//# id=K.callbacks.raw.runs3 props=C13,C04 strength=bounded shape="3 consecutive runs; exclusivity symbolic" tier=quick fns=RawCallbackSystem::run_with_cleanup
-#[kani::proof] #[kani::unwind(6)] fn k_callbacks_raw_runs3() { raw_contract::<3>(); }
+//# id=K.callbacks.raw.plain.runs3 props=C13,C04 strength=bounded shape="3 consecutive runs of a non-exclusive system" tier=quick fns=RawCallbackSystem::run_with_cleanup,run_initialized_system
+#[kani::proof] #[kani::unwind(6)] fn k_callbacks_raw_plain_runs3() { raw_contract::<3, false>(); }
+//# id=K.callbacks.raw.exclusive.runs3 props=C13,C04 strength=bounded shape="3 consecutive runs of an exclusive system" tier=quick fns=RawCallbackSystem::run_with_cleanup,run_initialized_system
+#[kani::proof] #[kani::unwind(6)] fn k_callbacks_raw_exclusive_runs3() { raw_contract::<3, true>(); }
 
-fn boxed_contract<const RUNS: usize>() {
+fn boxed_contract<const RUNS: usize, const EXCL: bool>() {
     let mut world = World::new();
     world.init_resource::<Trace>();
-    let exclusive: bool = kani::any();
+    let exclusive: bool = EXCL;
     let mut cb: CallbackSystem<(), u32> = CallbackSystem::New(Box::new(Probe { exclusive, queued: 1, runs: 0, inits: 0, pending: 0 }));
     let mut r = 0;
     while r < RUNS {
@@ -133,8 +136,10 @@ fn boxed_contract<const RUNS: usize>() {
     core::mem::forget(cb);
     core::mem::forget(world);
 }
-//# id=K.callbacks.boxed.runs2 props=C13,C04,C17 strength=bounded shape="2 consecutive runs of a boxed system; exclusivity symbolic" tier=quick fns=CallbackSystem::run_with_cleanup
-#[kani::proof] #[kani::unwind(6)] fn k_callbacks_boxed_runs2() { boxed_contract::<2>(); }
+//# id=K.callbacks.boxed.plain.runs2 props=C13,C04,C17 strength=bounded shape="2 consecutive runs of a boxed non-exclusive system" tier=quick fns=CallbackSystem::run_with_cleanup
+#[kani::proof] #[kani::unwind(6)] fn k_callbacks_boxed_plain_runs2() { boxed_contract::<2, false>(); }
+//# id=K.callbacks.boxed.exclusive.runs2 props=C13,C04,C17 strength=bounded shape="2 consecutive runs of a boxed exclusive system" tier=quick fns=CallbackSystem::run_with_cleanup
+#[kani::proof] #[kani::unwind(6)] fn k_callbacks_boxed_exclusive_runs2() { boxed_contract::<2, true>(); }
 
 //# id=K.callbacks.boxed.empty props=C04 strength=complete shape="Empty callback" tier=quick fns=CallbackSystem::run_with_cleanup
 #[kani::proof] #[kani::unwind(6)]
